@@ -43,12 +43,16 @@ def plan(tier, seed):
 class Sess:
     """one world + bookkeeping of accepted / open sends"""
 
-    def __init__(self, clock):
+    def __init__(self, clock, shared_journal=False):
         from asyncfix import FIXMessage, Journaler
         from vf.sim import endpoint as E
         from vf.sim.link import World
         self.clock = clock
         self.j = {"I": Journaler(), "A": Journaler()}
+        self.shared_journal = shared_journal
+        if shared_journal:
+            # both endpoints live in one process and keep their (different) sessions in one journal
+            self.j["A"] = self.j["I"]
 
         def mk_I():
             ep = E.new_endpoint("client", "INIT", "ACC", self.j["I"], hb=HB, name="I")
@@ -332,11 +336,11 @@ def shortened_gapfill(s):
     return False
 
 
-async def run_history(acc, clock, actions_fn, cid, exhaustive=False, ackers=False, concurrent=False):
+async def run_history(acc, clock, actions_fn, cid, exhaustive=False, ackers=False, concurrent=False, shared_journal=False):
     """actions_fn(sess, step) -> action tuple or None to stop.  Returns Sess."""
     from asyncfix.connection import ConnectionState as CS
     from vf.sim.net import SpinAbort, advance, settle
-    s = Sess(clock)
+    s = Sess(clock, shared_journal)
     s.flags = {}
     try:
         if ackers:
@@ -627,7 +631,7 @@ def run_shard(spec, acc):
                 continue
             rnd = random.Random(f"{spec['seed']}:C07:{shard}:{c}")
             fn = random_actions(rnd, maxbreaks=rnd.choice([1, 2, 2, 3, 5]))
-            s, how = await run_history(acc, clock, fn, cid, ackers=rnd.random() < 0.35, concurrent=rnd.random() < 0.35)
+            s, how = await run_history(acc, clock, fn, cid, ackers=rnd.random() < 0.35, concurrent=rnd.random() < 0.35, shared_journal=rnd.random() < 0.3)
             acc.case(tuple(s.trace), nontrivial=s.breaks_with_traffic > 0)
             if s.breaks_with_traffic:
                 acc.oracle("breaks-with-traffic-in-flight")
@@ -640,6 +644,7 @@ def run_shard(spec, acc):
             acc.add("histories_with_applications_replying_from_on_message", 1 if s.acker else 0)
             acc.add("connections_dying_under_a_handlers_reply", s.dying)
             acc.add("new_messages_sent_by_another_task_during_a_retransmission", s.concurrent_sends)
+            acc.add("histories_with_both_sessions_in_one_journal", 1 if s.shared_journal else 0)
             judge(acc, s, how, cid)
             if c < 2:
                 acc.sample({"trace": s.trace[:40], "end": how}, 2)
